@@ -321,7 +321,8 @@ func (c *PullClient) playStream() {
 		media.Unregist(c.stream)  // 从媒体中心取消注册
 		c.disconnect()            // 确保网络关闭
 		c.conn = nil              // 通知GC，尽早释放资源
-		c.stream = nil
+		// c.stream is left alone: the factory reads it after Open returned, possibly
+		// while this goroutine is already ending (a camera that hangs up at once)
 		c.logger.Infof("close pull stream")
 	}()
 
